@@ -36,6 +36,11 @@ def exec (st : State) (toks : List String) : State × List String :=
     match storeOf st r with
     | none => (st, ["panic"])
     | some s => (st, [storeShowDoc s (((getReplica st r).applied.flatMap (·.ops)).length + 1)])
+  -- the hypotheses of the refinement theorems (`Admissible`, `PredsOk`) evaluated on the op list of the
+  -- replica in application order: every history the library makes must satisfy them
+  | ["crdt.st.adm", r] =>
+    let ops := (getReplica st r).applied.flatMap (·.ops)
+    (st, [s!"adm={if admissibleB ops then "ok" else "NO"} preds={if predsOkB ops then "ok" else "NO"}"])
   | _ => (st, ["unknown-cmd"])
 
 end Driver.CrdtStore
